@@ -273,7 +273,23 @@ fn mutate(g: &mut Rng, base: &RawRequest) -> (String, RawRequest) {
         Some(q) => format!("{p}?{q}"),
         None => p.to_owned(),
     };
-    match g.below(22) {
+    match g.below(23) {
+        22 => {
+            // one query value replaced by / prefixed with percent-escapes that decode to characters XML 1.0
+            // cannot carry or that need escaping (they end up in error messages)
+            let Some(qs) = q.clone().filter(|x| !x.is_empty()) else { return ("control-char/no-query".into(), r) };
+            let mut pairs: Vec<String> = qs.split('&').map(str::to_owned).collect();
+            let i = g.usize_below(pairs.len());
+            let (k, v) = pairs[i].split_once('=').map_or((pairs[i].clone(), String::new()), |(k, v)| (k.to_owned(), v.to_owned()));
+            let esc = *g.pick(&["%00", "%01", "%08", "%0B", "%0C", "%16", "%1F", "%7F", "%C2%85", "%EF%BF%BE", "%EF%BF%BF", "%3C%2F", "%26", "%5D%5D%3E", "%0D", "%ED%A0%80"]);
+            pairs[i] = match g.below(3) {
+                0 => format!("{k}={esc}"),
+                1 => format!("{k}={esc}{v}"),
+                _ => format!("{k}={v}{esc}"),
+            };
+            r.uri = format!("{path}?{}", pairs.join("&"));
+            (format!("control-char/query/{}", if k.len() > 24 { "long-name" } else { &k }), r)
+        }
         19 => {
             // a syntactically complete presigned query with boundary dates and lifetimes
             let d = *g.pick(BOUNDARY_AMZ_DATES);
@@ -413,7 +429,7 @@ fn mutate(g: &mut Rng, base: &RawRequest) -> (String, RawRequest) {
             ("presign-fragments".into(), r)
         }
         11 => {
-            let v = *g.pick(&["response-expires=Fri%2C+31+Dec+9999+23%3A59%3A59+GMT", "response-expires=x", "partNumber=99999999999", "max-keys=-5", "versionId=%00", "uploadId=", "list-type=3", "select&select-type=3", "events", "tagging&acl&policy"]);
+            let v = *g.pick(&["response-expires=Fri%2C+31+Dec+9999+23%3A59%3A59+GMT", "response-expires=x", "partNumber=99999999999", "partNumber=%161", "max-keys=%0B5", "max-parts=%7F", "part-number-marker=1%1F", "max-uploads=%01", "key-marker=%00&max-keys=%08", "max-keys=-5", "versionId=%00", "uploadId=", "list-type=3", "select&select-type=3", "events", "tagging&acl&policy"]);
             r.uri = format!("{path}?{}{v}", q.clone().map(|x| format!("{x}&")).unwrap_or_default());
             ("hostile-query-member".into(), r)
         }
